@@ -702,24 +702,27 @@ func parseShortTermRPS(r *bits.EBSPReader, idx, numSTRefPicSets byte, sps *SPS) 
 			r.SetError(fmt.Errorf("deltaIdx > idx in parseShortTermRPS"))
 			return stps
 		}
-		/* deltaRpsSign */ _ = r.Read(1)
-		/* absDeltaRpsMinus1*/ _ = r.ReadExpGolomb()
-		//deltaRps := (1 - (deltaRpsSign << 1)) * (absDeltaRpsMinus1 + 1)
+		deltaRpsSign := r.Read(1)
+		absDeltaRpsMinus1 := r.ReadExpGolomb()
+		deltaRps := (1 - 2*int(deltaRpsSign)) * (int(absDeltaRpsMinus1) + 1)
 		refIdx := idx - deltaIdx
 		if int(refIdx) >= len(sps.ShortTermRefPicSets) {
 			r.SetError(fmt.Errorf("reference RPS index %d not available in parseShortTermRPS", refIdx))
 			return stps
 		}
-		numDeltaPocs := sps.ShortTermRefPicSets[refIdx].NumDeltaPocs
-		for j := byte(0); j <= numDeltaPocs; j++ {
-			usedByCurrPicFlag := r.ReadFlag()
-			useDeltaFlag := true
-			if !usedByCurrPicFlag {
-				useDeltaFlag = r.ReadFlag()
+		ref := sps.ShortTermRefPicSets[refIdx]
+		usedByCurrPicFlags := make([]bool, int(ref.NumDeltaPocs)+1)
+		useDeltaFlags := make([]bool, int(ref.NumDeltaPocs)+1)
+		for j := range usedByCurrPicFlags {
+			usedByCurrPicFlags[j] = r.ReadFlag()
+			useDeltaFlags[j] = true
+			if !usedByCurrPicFlags[j] {
+				useDeltaFlags[j] = r.ReadFlag()
 			}
-			if usedByCurrPicFlag || useDeltaFlag {
-				stps.NumDeltaPocs++
-			}
+		}
+		if err := stps.deriveFromRef(ref, deltaRps, usedByCurrPicFlags, useDeltaFlags); err != nil {
+			r.SetError(err)
+			return stps
 		}
 	} else {
 		stps.NumNegativePics = byte(r.ReadExpGolomb())
@@ -744,6 +747,80 @@ func parseShortTermRPS(r *bits.EBSPReader, idx, numSTRefPicSets byte, sps *SPS) 
 	}
 
 	return stps
+}
+
+// deriveFromRef derives an inter-predicted short-term RPS from its reference set according to
+// equations 7-61 and 7-62 of ISO/IEC 23008-2. DeltaPocS0 and DeltaPocS1 hold, as for explicitly
+// coded sets, the distance of each entry to the previous one (delta_poc_sX_minus1 + 1).
+func (st *ShortTermRPS) deriveFromRef(ref ShortTermRPS, deltaRps int, usedByCurrPicFlags, useDeltaFlags []bool) error {
+	// accumulated picture order count differences of the reference set
+	refS0 := make([]int, len(ref.DeltaPocS0))
+	acc := 0
+	for i, d := range ref.DeltaPocS0 {
+		acc -= int(d)
+		refS0[i] = acc
+	}
+	refS1 := make([]int, len(ref.DeltaPocS1))
+	acc = 0
+	for i, d := range ref.DeltaPocS1 {
+		acc += int(d)
+		refS1[i] = acc
+	}
+	nrNeg, nrPos := len(refS0), len(refS1)
+	if nrNeg+nrPos+1 != len(usedByCurrPicFlags) {
+		return fmt.Errorf("reference RPS has %d entries but %d flags were read", nrNeg+nrPos, len(usedByCurrPicFlags))
+	}
+	var s0, s1 []int
+	var used0, used1 []bool
+	for j := nrPos - 1; j >= 0; j-- {
+		dPoc := refS1[j] + deltaRps
+		if dPoc < 0 && useDeltaFlags[nrNeg+j] {
+			s0, used0 = append(s0, dPoc), append(used0, usedByCurrPicFlags[nrNeg+j])
+		}
+	}
+	if deltaRps < 0 && useDeltaFlags[nrNeg+nrPos] {
+		s0, used0 = append(s0, deltaRps), append(used0, usedByCurrPicFlags[nrNeg+nrPos])
+	}
+	for j := 0; j < nrNeg; j++ {
+		dPoc := refS0[j] + deltaRps
+		if dPoc < 0 && useDeltaFlags[j] {
+			s0, used0 = append(s0, dPoc), append(used0, usedByCurrPicFlags[j])
+		}
+	}
+	for j := nrNeg - 1; j >= 0; j-- {
+		dPoc := refS0[j] + deltaRps
+		if dPoc > 0 && useDeltaFlags[j] {
+			s1, used1 = append(s1, dPoc), append(used1, usedByCurrPicFlags[j])
+		}
+	}
+	if deltaRps > 0 && useDeltaFlags[nrNeg+nrPos] {
+		s1, used1 = append(s1, deltaRps), append(used1, usedByCurrPicFlags[nrNeg+nrPos])
+	}
+	for j := 0; j < nrPos; j++ {
+		dPoc := refS1[j] + deltaRps
+		if dPoc > 0 && useDeltaFlags[nrNeg+j] {
+			s1, used1 = append(s1, dPoc), append(used1, usedByCurrPicFlags[nrNeg+j])
+		}
+	}
+	if len(s0) > maxSTRefPics || len(s1) > maxSTRefPics {
+		return fmt.Errorf("more than %d short term reference pictures", maxSTRefPics)
+	}
+	st.DeltaPocS0 = make([]uint32, len(s0))
+	prev := 0
+	for i, p := range s0 {
+		st.DeltaPocS0[i] = uint32(prev - p)
+		prev = p
+	}
+	st.DeltaPocS1 = make([]uint32, len(s1))
+	prev = 0
+	for i, p := range s1 {
+		st.DeltaPocS1[i] = uint32(p - prev)
+		prev = p
+	}
+	st.UsedByCurrPicS0, st.UsedByCurrPicS1 = used0, used1
+	st.NumNegativePics, st.NumPositivePics = byte(len(s0)), byte(len(s1))
+	st.NumDeltaPocs = st.NumNegativePics + st.NumPositivePics
+	return nil
 }
 
 // readPastScalingListData - read and parse all bits of scaling list, without storing values
